@@ -146,6 +146,11 @@ def write_tree(td, files):
     for name, decls in files.items():
         p = os.path.join(td, name + ".fcp")
         os.makedirs(os.path.dirname(p), exist_ok=True)
+        if isinstance(decls, bytes):
+            texts[name + ".fcp"] = decls.decode("latin-1")
+            with open(p, "wb") as f:
+                f.write(decls)
+            continue
         text = decls if isinstance(decls, str) else print_schema(decls)
         texts[name + ".fcp"] = text
         with open(p, "w") as f:
@@ -157,11 +162,11 @@ def multiset(tree):
     return {cat: sorted(json.dumps(x, sort_keys=True) for x in tree[cat]) for cat in ("structs", "enums", "impls", "services", "devices")}
 
 
-ERRORS = ("syntax", "truncated", "undeclared", "missing")
+ERRORS = ("syntax", "truncated", "undeclared", "missing", "undecodable", "too-deep")
 
 
 def inject(files, modname, kind):
-    f2 = {k: (v if isinstance(v, str) else print_schema(v)) for k, v in files.items()}
+    f2 = {k: (v if isinstance(v, (str, bytes)) else print_schema(v)) for k, v in files.items()}
     text = f2[modname]
     if kind == "syntax":
         f2[modname] = text + "\nstruct { oops\n"
@@ -172,6 +177,11 @@ def inject(files, modname, kind):
         f2[modname] = text + "\nstruct Bad { z @0: Zz, }\n"
     elif kind == "missing":
         del f2[modname]
+    elif kind == "undecodable":
+        # the module saved in a legacy 8-bit code page: a degree sign is not valid UTF-8
+        f2[modname] = (text + '\nstruct Deg { t @0: u8 | unit("\u00b0C"), }\n').encode("cp1252")
+    elif kind == "too-deep":
+        f2[modname] = text + "\nstruct Deep { d @0: " + "[" * 400 + "u8" + "]" * 400 + ", }\n"
     return f2
 
 
@@ -220,6 +230,24 @@ def make_worker(tier):
                     S.add("outcomes", "split-rejected")
                     S.violation("C20.split", "C20.split/rejected/%s/%s" % (label["topo"], label["paths"]), inp, expected="same declarations as the single file", actual=err)
                     continue
+                if idx % 5 == 0:
+                    # the other entry point: main.fcp's TEXT parsed from a string, modules resolved from the working directory
+                    from .c08 import _worker_dir
+
+                    S.count("executions")
+                    cwd = os.getcwd()
+                    os.chdir(_worker_dir())
+                    try:
+                        try:
+                            rs = get_fcp_from_string(texts["main.fcp"], Logger({}))
+                            ts = rs.unwrap().to_dict() if rs.is_ok() else "Err: " + "; ".join(str(m) for m, _n, _w in rs.err().msg)[:300]
+                        except Exception as e:  # noqa
+                            ts = "exception %s" % type(e).__name__
+                    finally:
+                        os.chdir(cwd)
+                    if not isinstance(ts, dict) or multiset(ts) != multiset(tree):
+                        S.add("outcomes", "string-entry-differs")
+                        S.violation("C20.split", "C20.split/string-entry-point-differs-from-file/%s" % ("rejected" if not isinstance(ts, dict) else "declarations"), inp, expected="the tree get_fcp gives", actual=ts if not isinstance(ts, dict) else multiset(ts))
                 ms, mt = multiset(single), multiset(tree)
                 bad = [c for c in ms if ms[c] != mt[c]]
                 if bad:
